@@ -230,7 +230,7 @@ def run_mutant(lane, m, widen, baseline):
 
         def run_ids(idlist):
             for cid in idlist:
-                code, out = sh('./check %s quick' % cid, lane + '/verif', 1500)
+                code, out = sh('./check %s quick' % cid, lane + '/verif', 600)
                 if code == 1 and 'VIOLATION' in out:
                     sig = re.search(r'sig=(\S+)', out)
                     caught.append('%s:%s' % (cid, sig.group(1) if sig else '?'))
@@ -301,6 +301,11 @@ def main():
         for r in rows:
             latest[r['id']] = r
         rows = list(latest.values())
+        for r in rows:
+            # a mutant that makes a check run into its time limit or a watchdog is neither caught nor survived: the
+            # checks report a hang as infrastructure trouble (exit 2), never as a violation
+            if r['verdict'] in ('survived', 'error') and any('exit124' in e or 'hung beyond' in e for e in r.get('errors', [])):
+                r['verdict'] = 'hang(check ran into its time limit)'
         from collections import Counter
         c = Counter(r['verdict'] for r in rows)
         print('mutants judged: %d' % len(rows))
